@@ -442,6 +442,7 @@ func (c *Conn) Parse(data []byte) (retErr error) {
 	var isProtocolMessage bool
 	var opcode MessageType
 	var ok, fin, compress bool
+	var gotMessage bool
 	var totalFrameSize int
 
 	releaseBuf := func() {
@@ -502,6 +503,7 @@ func (c *Conn) Parse(data []byte) (retErr error) {
 					if fin {
 						message = c.message
 						c.message = nil
+						gotMessage = true
 						if c.compress {
 							var pb *[]byte
 							var rc io.ReadCloser
@@ -561,9 +563,10 @@ func (c *Conn) Parse(data []byte) (retErr error) {
 			return err
 		}
 
-		if message != nil {
+		if gotMessage {
 			c.handleMessage(msgType, message)
 			message = nil
+			gotMessage = false
 		}
 		if frame != nil {
 			c.handleDataFrame(msgType, fin, frame)
